@@ -640,6 +640,13 @@ class PrecipitateModel (PrecipitateBase):
                 self.PSDXalpha[p] = np.zeros((self.PBM[p].bins + 1, self.numberOfElements))
                 self.PSDXbeta[p] = np.zeros((self.PBM[p].bins + 1, self.numberOfElements))
                 self.growth[p] = np.zeros(self.PBM[p].bins+1)
+                #The size classes are back to the original ones, so everything defined per size class has to follow
+                if self.numberOfElements == 1:
+                    self.RdrivingForceIndex[p] = self.PBM[p].bins
+                if self.precipitateParameters[p].calculateAspectRatio:
+                    self.eqAspectRatio[p] = self.precipitateParameters[p].strainEnergy.eqAR_bySearch(self.PBM[p].PSDbounds, self.precipitateParameters[p].gamma, self.precipitateParameters[p].shapeFactor)
+                else:
+                    self.eqAspectRatio[p] = self.precipitateParameters[p].shapeFactor.aspectRatio(self.PBM[p].PSDbounds)
                 #Keep the recorded size distributions (if recording) aligned with the time steps
                 self.PBM[p].record(t)
                 continue
